@@ -9,6 +9,8 @@ import (
 	"io"
 	"net/http"
 	"sync"
+
+	"github.com/creachadair/jrpc2/internal/verifhook"
 )
 
 // A Channel implements a [channel.Channel] that dispatches requests via HTTP
@@ -82,6 +84,7 @@ func (c *Channel) Send(msg []byte) error {
 	c.wg.Add(1)
 	go func() {
 		defer c.wg.Done()
+		verifhook.Point("hchan.do")
 		rsp, err := cli.Do(req)
 
 		// If the server replied with an empty acknowledgement for a
@@ -90,6 +93,7 @@ func (c *Channel) Send(msg []byte) error {
 			rsp.Body.Close()
 			return
 		}
+		verifhook.Point("hchan.rsp")
 		c.rsp <- response{rsp, err}
 	}()
 	return nil
